@@ -1330,7 +1330,8 @@ class QvmCpu:
             length = length.value
 
         if length is None:
-            length = len(string) - start + 1
+            # a start position beyond the end gives an empty string
+            length = max(len(string) - start + 1, 0)
 
         if length < 0:
             self.trap(TrapCode.INVALID_OPERAND_VALUE,
